@@ -42,23 +42,50 @@ package client
 //@   ensures found-is-first-match: result != nil ==> exists(k, 0, len(cookies), cookies[k] == result && sameCookie(result, key, path) && forall(m, 0, k, !sameCookie(cookies[m], key, path)))
 //@   ensures nil-only-if-absent: result == nil ==> forall(k, 0, len(cookies), !sameCookie(cookies[k], key, path))
 
+// ---- the lock --------------------------------------------------------------------------------
+// cj.mu protects the jar's MAP: the field cj.hostCookies, the key set and the slice headers stored in the map
+// (the state variables H_client_CookieJar_hostCookies, MD_/MV_string_LJp_fasthttp_Cookie) and the pool flag
+// jcPooled. The engine havocs protected state when the lock is taken (other goroutines may have run while the
+// lock was free) and then assumes the lock invariants; at Unlock the invariants are proved. So whatever a
+// method read from the map BEFORE its Lock is worthless afterwards, and a write before the Lock is lost: every
+// clause below that speaks about the jar's content is stated over the state inside the critical section, and
+// moving a map access out of the section makes an obligation fail (mutation table in the report).
+// Two-state facts ("this section leaves the other hosts' lists alone", "earlier entries stay where they are")
+// cannot be written with old(..): the state at ENTRY is not the state at LOCK time. They are lock invariants
+// over a ghost snapshot jsDom/jsList (whole map) and jsLen/jsEl (the list being worked on): the snapshot is
+// havocked with the map and constrained only by the invariant R(snapshot, map) - assumed at Lock, proved at
+// Unlock. R is reflexive, so the proof covers the snapshot that IS the state at Lock time: the section maps
+// every state to an R-successor of it.
+//@ ghost jsDom map[string]bool
+//@ ghost jsList map[string]slice
+//@ ghost jsLen int
+//@ ghost jsEl map[int]ref
+//@ ghost jarLk int
+//@ macro othersAsSnapshot(j_, h_) = forallS(o_, o_ != h_ ==> indom(j_.hostCookies, o_) == jsDom[o_] && (jsDom[o_] ==> j_.hostCookies[o_] == jsList[o_]))
+//@ macro extendsSnapshot(j_, h_) = jarLen(j_, h_) >= jsLen && !exists(k_, 0, jsLen, jarAt(j_, h_, k_) != jsEl[k_])
+//@ macro sliceNoPooled(s_) = !exists(n_, 0, len(s_), s_[n_] == nil || jcPooled[s_[n_]])
+//@ macro sliceNoDup(s_) = !exists(n_, 0, len(s_), exists(m_, 0, n_, s_[m_] == s_[n_]))
+
 // getCookiesByHost(host): purge. The result holds only live cookies, each once, none of them pooled; the
 // expired ones are released to fasthttp's pool (only expired ones, only under the lock, never twice) and -
 // this is what the purge is for - are no longer referenced by the jar afterwards: the jar's list for the
-// host IS the purged list. Lists of other hosts are not touched.
-// (The critical section: jcPooled may change while waiting for the lock - other users of the pool -
-// but never for a cookie the jar holds; that is the lock invariant.)
-// NOT DECIDED HERE: that every live cookie of the old list is in the result and that every result cookie
-// comes from the old list (both need "for all .. exists .." invariants over the in-place shifting
-// `append(cookies[:i], cookies[i+1:]...)`, on which the solvers time out); the loop invariants only pin
-// the not-yet-visited rest of the list to the old list (rest-is-old-rest) and the visited head to be live.
+// host IS the purged list. Lists of other hosts are not touched (lock invariant other-hosts-kept).
+// The list's well-formedness (no pooled object, no object twice) is the lock invariant: it holds whenever the
+// lock is free, nobody has to establish it before calling.
+// The loop invariants pin the not-yet-visited rest of the working list to the list found under the lock
+// (rest-is-old-rest: `elemOld(cj.hostCookies[host], k)` is the k-th cell of the slice the map holds NOW - the
+// map is not written before the loop ends, so that is the slice read under the lock - with the cell content of
+// the entry state; the cells are not lock-protected state, only this loop shifts them) and the visited head to
+// be live.
+// NOT DECIDED HERE: that every live cookie of the list found under the lock is in the result and that every
+// result cookie comes from that list (both need "for all .. exists .." invariants over the in-place shifting
+// `append(cookies[:i], cookies[i+1:]...)`, on which the solvers time out).
 // Quantified clauses are written "!exists(k, .., !P)" (no k violates P).
-//@ func (*CookieJar).getCookiesByHost
-//@   requires lock-free: !held(cj.mu)
+//@ func (*CookieJar).purgeExpired
+//@   requires under-the-lock: held(cj.mu)
 //@   requires list-not-pooled: listNoPooled(cj, host)
 //@   requires list-no-duplicates: listNoDup(cj, host)
 //@   modifies clockNow, jcPooled, ckKey, ckVal, ckAttr, jcPath, jcExp, heap(E_p_fasthttp_Cookie), heap(MV_string_LJp_fasthttp_Cookie), heap(MD_string_LJp_fasthttp_Cookie)
-//@   lock cj.mu protects jcPooled inv jar-holds-no-pooled-cookie: listNoPooled(cj, host)
 //@   atcall @fasthttp.ReleaseCookie: only-expired-released-under-lock: held(cj.mu) && !jcLive(jcExp[c], clockNow)
 //@   loop 1
 //@     invariant in-place: len(cookies) <= jarLen(cj, host) && 0 <= i && i <= len(cookies) && (jarLen(cj, host) > 0 ==> arr(cookies) == arr(cj.hostCookies[host]) && off(cookies) == off(cj.hostCookies[host]) && cap(cookies) == cap(cj.hostCookies[host]))
@@ -71,92 +98,158 @@ package client
 //@     invariant head-distinct: !exists(j, 0, i, exists(m, 0, j, jarAt(cj, host, m) == jarAt(cj, host, j)))
 //@     invariant head-not-pooled: !exists(j, 0, i, jarAt(cj, host, j) == nil || jcPooled[jarAt(cj, host, j)])
 //@     invariant unreleased-unchanged: !existsI(r, !jcPooled[r] && jcExp[r] != old(jcExp[r]))
-//@     invariant map-unchanged: !existsS(h, indom(cj.hostCookies, h) != old(indom(cj.hostCookies, h)) || cj.hostCookies[h] != old(cj.hostCookies[h]))
 //@     invariant still-held: held(cj.mu)
 //@   ensures only-live: !exists(j, 0, len(result), !jcLive(jcExp[result[j]], clockNow))
 //@   ensures each-once: !exists(j, 0, len(result), exists(m, 0, j, result[m] == result[j]))
 //@   ensures none-pooled: !exists(j, 0, len(result), result[j] == nil || jcPooled[result[j]])
+//@   ensures jar-holds-the-purged-list: jarLen(cj, host) == len(result) && (len(result) > 0 ==> arr(cj.hostCookies[host]) == arr(result) && off(cj.hostCookies[host]) == off(result))
+//@   ensures still-under-the-lock: held(cj.mu)
+//@   ensures list-not-pooled: listNoPooled(cj, host)
+//@   ensures list-no-duplicates: listNoDup(cj, host)
 //@   ensures other-hosts-kept: !existsS(h, h != host && (indom(cj.hostCookies, h) != old(indom(cj.hostCookies, h)) || cj.hostCookies[h] != old(cj.hostCookies[h])))
+//@   ensures map-object-kept: cj.hostCookies == old(cj.hostCookies)
+
+//@ func (*CookieJar).getCookiesByHost
+//@   requires lock-free: !held(cj.mu)
+//@   modifies clockNow, jcPooled, ckKey, ckVal, ckAttr, jcPath, jcExp, jsDom, jsList, jarLk, CookieJar.hostCookies, heap(E_p_fasthttp_Cookie), heap(MV_string_LJp_fasthttp_Cookie), heap(MD_string_LJp_fasthttp_Cookie)
+//@   lock cj.mu protects jcPooled, H_client_CookieJar_hostCookies, MD_string_LJp_fasthttp_Cookie, MV_string_LJp_fasthttp_Cookie, jsDom, jsList inv jar-holds-no-pooled-cookie: listNoPooled(cj, host)
+//@   lock cj.mu protects jarLk inv no-object-twice: listNoDup(cj, host)
+//@   lock cj.mu protects jarLk inv other-hosts-kept: othersAsSnapshot(cj, host)
+//@   ensures only-live: !exists(j, 0, len(result), !jcLive(jcExp[result[j]], clockNow))
+//@   ensures each-once: !exists(j, 0, len(result), exists(m, 0, j, result[m] == result[j]))
+//@   ensures none-pooled: !exists(j, 0, len(result), result[j] == nil || jcPooled[result[j]])
 //@   ensures jar-holds-the-purged-list: jarLen(cj, host) == len(result) && (len(result) > 0 ==> arr(cj.hostCookies[host]) == arr(result) && off(cj.hostCookies[host]) == off(result))
 
-// getByHostAndPath(host, path) - what Get(uri) and dumpCookiesToReq hand out: of the cookies stored for
-// the host (port stripped) exactly those that are live and whose path is a prefix of the request path,
-// each once. (That every one of them was stored for this host follows from where they are taken:
-// the purged list of jarHost(host), see the atcall clause and getCookiesByHost.)
-//@ macro purged() = last((*CookieJar).getCookiesByHost)
+// getByHostAndPath(host, path) - what Get(uri) and dumpCookiesToReq hand out: for the cookies stored for
+// the host (port stripped) that are live and whose path is a prefix of the request path, one COPY each:
+// a cookie object of its own, acquired from fasthttp's pool for this call (so: not pooled, none of the jar's,
+// not handed out twice), filled from the jar's object by CopyTo - same key, value, path and expiry. The jar's
+// own objects stay where they are: in the jar's list, not pooled; what the caller does with the copies
+// (fasthttp.ReleaseCookie, as Get's documentation allows) cannot reach them.
+// Which jar object a handed-out object is a copy of is the history ghost ckSrc (mw_C18.spec, written by CopyTo):
+// "x is a copy of y" = srcOf(x) == y && sameAttrs(x, y). (That every source was stored for this host follows from
+// where they are taken: the purged list of jarHost(host), see the atcall clause and purgeExpired.)
+//@ macro srcOf(x_) = ckSrc[x_]
+//@ macro sameAttrs(a, b) = ckKey[a] == ckKey[b] && ckVal[a] == ckVal[b] && jcPath[a] == jcPath[b] && jcExp[a] == jcExp[b]
+//@ macro purged() = last((*CookieJar).purgeExpired)
+// (The list's well-formedness is the lock invariant of getCookiesByHost: no precondition on the jar's content.)
+//@ macro gbHost() = jarHost(str(old(host)))
 //@ func (*CookieJar).getByHostAndPath
 //@   requires lock-free: !held(cj.mu)
-//@   requires list-not-pooled: listNoPooled(cj, jarHost(str(host)))
-//@   requires list-no-duplicates: listNoDup(cj, jarHost(str(host)))
-//@   modifies clockNow, jcPooled, ckKey, ckVal, ckAttr, jcPath, jcExp, heap(E_p_fasthttp_Cookie), heap(MV_string_LJp_fasthttp_Cookie), heap(MD_string_LJp_fasthttp_Cookie)
-//@   atcall (*CookieJar).getCookiesByHost: filed-under-host-without-port: host == jarHost(last(@utils.UnsafeString))
+//@   lock cj.mu protects jcPooled, H_client_CookieJar_hostCookies, MD_string_LJp_fasthttp_Cookie, MV_string_LJp_fasthttp_Cookie, jsDom, jsList inv jar-holds-no-pooled-cookie: listNoPooled(cj, gbHost())
+//@   lock cj.mu protects jarLk inv no-object-twice: listNoDup(cj, gbHost())
+//@   lock cj.mu protects jarLk inv other-hosts-kept: othersAsSnapshot(cj, gbHost())
+//@   modifies clockNow, jcPooled, ckKey, ckVal, ckAttr, jcPath, jcExp, ckSrc, jsDom, jsList, jarLk, CookieJar.hostCookies, heap(E_p_fasthttp_Cookie), heap(MV_string_LJp_fasthttp_Cookie), heap(MD_string_LJp_fasthttp_Cookie)
+//@   atcall (*CookieJar).purgeExpired: filed-under-host-without-port: host == jarHost(last(@utils.UnsafeString))
+// Every handed-out object is acquired under the lock and filled from the jar's cookie that is being looked at;
+// the jar's object itself is only read.
+//@   atcall @fasthttp.AcquireCookie: copy-made-under-the-lock: held(cj.mu)
+//@   atcall @fasthttp.(*Cookie).CopyTo: fills-the-new-object-from-the-jars: held(cj.mu) && src == cookie && c == nc && c != cookie
 //@   loop 1
 //@     invariant fresh-list: len(newCookies) <= i && i <= len(cookies) && cap(newCookies) == len(cookies) && arr(newCookies) != arr(cookies) && arr(newCookies) != 0 && off(newCookies) == 0
 //@     invariant taken-live-unpooled: !exists(j, 0, len(newCookies), newCookies[j] == nil || jcPooled[newCookies[j]] || !jcLive(jcExp[newCookies[j]], clockNow))
 //@     invariant taken-path-is-prefix-of-request-path: !exists(j, 0, len(newCookies), !pathMatch(str(path), jcPath[newCookies[j]]))
-//@     invariant taken-not-ahead: !exists(j, 0, len(newCookies), exists(k, i, len(cookies), newCookies[j] == cookies[k]))
-//@     invariant taken-distinct: !exists(j, 0, len(newCookies), exists(m, 0, j, newCookies[m] == newCookies[j]))
-//@     invariant matching-taken: !exists(k, 0, i, pathMatch(str(path), jcPath[cookies[k]]) && !exists(j, 0, len(newCookies), newCookies[j] == cookies[k]))
-//@     invariant taken-from-purged: !exists(j, 0, len(newCookies), !exists(k, 0, i, newCookies[j] == cookies[k]))
+//@     invariant taken-are-copies: !exists(j, 0, len(newCookies), !sameAttrs(newCookies[j], srcOf(newCookies[j])))
+//@     invariant taken-not-ahead: !exists(j, 0, len(newCookies), exists(k, i, len(cookies), srcOf(newCookies[j]) == cookies[k]))
+//@     invariant taken-distinct: !exists(j, 0, len(newCookies), exists(m, 0, j, newCookies[m] == newCookies[j] || srcOf(newCookies[m]) == srcOf(newCookies[j])))
+//@     invariant matching-taken: !exists(k, 0, i, pathMatch(str(path), jcPath[cookies[k]]) && !exists(j, 0, len(newCookies), srcOf(newCookies[j]) == cookies[k]))
+//@     invariant taken-from-purged: !exists(j, 0, len(newCookies), !exists(k, 0, i, srcOf(newCookies[j]) == cookies[k]))
+//@     invariant taken-are-not-the-jars: !exists(j, 0, len(newCookies), exists(k, 0, len(cookies), newCookies[j] == cookies[k]))
+// Lock discipline for the list itself: the cells of the jar's lists are written under the lock (the in-place
+// shift of purgeExpired), so a list that is read WITHOUT the lock must not be one of the jar's arrays.
+// (Was a finding - the loop ran after getCookiesByHost had released the lock -, repaired: one critical section.)
+//@     invariant list-read-under-the-lock-or-private: held(cj.mu) || len(cookies) == 0 || arr(cookies) != arr(cj.hostCookies[hostStr])
 //@     invariant purged-is-jar-list: jarLen(cj, hostStr) == len(cookies) && (len(cookies) > 0 ==> arr(cj.hostCookies[hostStr]) == arr(cookies) && off(cj.hostCookies[hostStr]) == off(cookies))
 //@     invariant purged-live-unpooled: !exists(k, 0, len(cookies), cookies[k] == nil || jcPooled[cookies[k]] || !jcLive(jcExp[cookies[k]], clockNow))
 //@     invariant purged-distinct: !exists(k, 0, len(cookies), exists(m, 0, k, cookies[m] == cookies[k]))
 //@   ensures only-live: !exists(j, 0, len(result), result[j] == nil || jcPooled[result[j]] || !jcLive(jcExp[result[j]], clockNow))
 //@   ensures only-cookie-path-prefix-of-request-path: !exists(j, 0, len(result), !pathMatch(str(path), jcPath[result[j]]))
-//@   ensures every-matching-live-one: !exists(k, 0, jarLen(cj, jarHost(str(host))), pathMatch(str(path), jcPath[jarAt(cj, jarHost(str(host)), k)]) && !exists(j, 0, len(result), result[j] == jarAt(cj, jarHost(str(host)), k)))
-//@   ensures only-stored-for-host: !exists(j, 0, len(result), !exists(k, 0, jarLen(cj, jarHost(str(host))), result[j] == jarAt(cj, jarHost(str(host)), k)))
-//@   ensures each-once: !exists(j, 0, len(result), exists(m, 0, j, result[m] == result[j]))
+//@   ensures copies-carry-the-stored-attributes: !exists(j, 0, len(result), !sameAttrs(result[j], srcOf(result[j])))
+//@   ensures every-matching-live-one: !exists(k, 0, jarLen(cj, jarHost(str(host))), pathMatch(str(path), jcPath[jarAt(cj, jarHost(str(host)), k)]) && !exists(j, 0, len(result), srcOf(result[j]) == jarAt(cj, jarHost(str(host)), k)))
+//@   ensures only-stored-for-host: !exists(j, 0, len(result), !exists(k, 0, jarLen(cj, jarHost(str(host))), srcOf(result[j]) == jarAt(cj, jarHost(str(host)), k)))
+//@   ensures each-once: !exists(j, 0, len(result), exists(m, 0, j, result[m] == result[j] || srcOf(result[m]) == srcOf(result[j])))
+// Nothing that is handed out is an element of the jar's list (the clause that catches "Get hands out the jar's own
+// objects": a caller releasing such an object puts an object the jar still lists into fasthttp's pool, and the next
+// cookie stored for ANY host shows up under this host - replay test TestFVCKnownC18GetHandsOutJarObjects).
+//@   ensures returned-cookies-are-the-callers-to-release: !exists(j, 0, len(result), exists(k, 0, jarLen(cj, jarHost(str(host))), result[j] == jarAt(cj, jarHost(str(host)), k)))
+//@   ensures jar-keeps-its-own-objects: listNoPooled(cj, jarHost(str(host))) && listNoDup(cj, jarHost(str(host)))
+//@   ensures jar-list-is-purged: !exists(k, 0, jarLen(cj, jarHost(str(host))), !jcLive(jcExp[jarAt(cj, jarHost(str(host)), k)], clockNow))
 
 // Get(uri): the public face of getByHostAndPath.
 //@ macro uHost(u) = jarHost(uriHost(u, epoch))
 //@ macro uPath(u) = uriPath(u, epoch)
 //@ func (*CookieJar).Get
 //@   requires lock-free: !held(cj.mu)
-//@   requires list-not-pooled: uri != nil ==> listNoPooled(cj, uHost(uri))
-//@   requires list-no-duplicates: uri != nil ==> listNoDup(cj, uHost(uri))
-//@   modifies clockNow, jcPooled, ckKey, ckVal, ckAttr, jcPath, jcExp, heap(E_p_fasthttp_Cookie), heap(MV_string_LJp_fasthttp_Cookie), heap(MD_string_LJp_fasthttp_Cookie)
+//@   modifies clockNow, jcPooled, ckKey, ckVal, ckAttr, jcPath, jcExp, ckSrc, jsDom, jsList, jarLk, CookieJar.hostCookies, heap(E_p_fasthttp_Cookie), heap(MV_string_LJp_fasthttp_Cookie), heap(MD_string_LJp_fasthttp_Cookie)
 //@   ensures no-uri-no-cookies: uri == nil ==> len(result) == 0
 //@   ensures only-live: !exists(j, 0, len(result), result[j] == nil || jcPooled[result[j]] || !jcLive(jcExp[result[j]], clockNow))
 //@   ensures only-cookie-path-prefix-of-request-path: !exists(j, 0, len(result), !pathMatch(uPath(uri), jcPath[result[j]]))
-//@   ensures only-stored-for-host: !exists(j, 0, len(result), !exists(k, 0, jarLen(cj, uHost(uri)), result[j] == jarAt(cj, uHost(uri), k)))
-//@   ensures every-matching-live-one: uri != nil ==> !exists(k, 0, jarLen(cj, uHost(uri)), pathMatch(uPath(uri), jcPath[jarAt(cj, uHost(uri), k)]) && !exists(j, 0, len(result), result[j] == jarAt(cj, uHost(uri), k)))
-//@   ensures each-once: !exists(j, 0, len(result), exists(m, 0, j, result[m] == result[j]))
+//@   ensures copies-carry-the-stored-attributes: !exists(j, 0, len(result), !sameAttrs(result[j], srcOf(result[j])))
+//@   ensures only-stored-for-host: !exists(j, 0, len(result), !exists(k, 0, jarLen(cj, uHost(uri)), srcOf(result[j]) == jarAt(cj, uHost(uri), k)))
+//@   ensures every-matching-live-one: uri != nil ==> !exists(k, 0, jarLen(cj, uHost(uri)), pathMatch(uPath(uri), jcPath[jarAt(cj, uHost(uri), k)]) && !exists(j, 0, len(result), srcOf(result[j]) == jarAt(cj, uHost(uri), k)))
+//@   ensures each-once: !exists(j, 0, len(result), exists(m, 0, j, result[m] == result[j] || srcOf(result[m]) == srcOf(result[j])))
+// Get's documentation: "The CookieJar keeps its own copies of cookies, so it is safe to release the returned
+// cookies after use." - i.e. nothing that Get hands out is referenced by the jar, and the jar's own objects are
+// not pooled: releasing every returned cookie (precondition of fasthttp.ReleaseCookie: not pooled - only-live)
+// leaves the jar's list as it is. (Was a finding - the result held the jar's own objects -, repaired: copies.)
+//@   ensures returned-cookies-are-the-callers-to-release: !exists(j, 0, len(result), exists(k, 0, jarLen(cj, uHost(uri)), result[j] == jarAt(cj, uHost(uri), k)))
+//@   ensures jar-keeps-its-own-objects: uri != nil ==> listNoPooled(cj, uHost(uri)) && listNoDup(cj, uHost(uri))
 
 // dumpCookiesToReq(req): the jar's contribution to an outgoing request. Every cookie pair it adds to the
 // request header is the key/value of a cookie that is stored for the request's host, live, and whose path
 // is a prefix of the request path (nothing leaks across hosts, paths or expiry); every such cookie is sent.
+// It works on the copies getByHostAndPath hands out and gives exactly those back to fasthttp's pool, each once,
+// after its pair is written - never one of the jar's own objects (those stay unpooled in the jar's list).
 //@ macro rHost(r) = jarHost(uriHost(reqURI(r, epoch), epoch))
 //@ macro rPath(r) = uriPath(reqURI(r, epoch), epoch)
 //@ func (*CookieJar).dumpCookiesToReq
 //@   requires lock-free: !held(cj.mu)
-//@   requires list-not-pooled: listNoPooled(cj, rHost(req))
-//@   requires list-no-duplicates: listNoDup(cj, rHost(req))
-//@   modifies jarHas, jarVal, clockNow, jcPooled, ckKey, ckVal, ckAttr, jcPath, jcExp, heap(E_p_fasthttp_Cookie), heap(MV_string_LJp_fasthttp_Cookie), heap(MD_string_LJp_fasthttp_Cookie)
+//@   modifies jarHas, jarVal, clockNow, jcPooled, ckKey, ckVal, ckAttr, jcPath, jcExp, ckSrc, jsDom, jsList, jarLk, CookieJar.hostCookies, heap(E_p_fasthttp_Cookie), heap(MV_string_LJp_fasthttp_Cookie), heap(MD_string_LJp_fasthttp_Cookie)
+//@   atcall @fasthttp.(*RequestHeader).SetCookieBytesKV: writes-the-pair-of-this-copy: h == req.Header && str(key) == ckKey[srcOf(cookie)] && str(value) == ckVal[srcOf(cookie)]
+//@   atcall @fasthttp.ReleaseCookie: releases-the-copy-just-written-never-the-jars: c == cookie && called("@fasthttp.(*RequestHeader).SetCookieBytesKV") && !exists(k, 0, jarLen(cj, rHost(req)), c == jarAt(cj, rHost(req), k))
 //@   loop 1
 //@     invariant index-in-range: rangeindex + 1 <= len(cookies)
-//@     invariant sent-so-far: !exists(j, 0, rangeindex + 1, !jarHas[req.Header][ckKey[cookies[j]]])
-//@     invariant sent-only-from-list: !existsS(n, jarHas[req.Header][n] && !old(jarHas[req.Header][n]) && !exists(j, 0, rangeindex + 1, ckKey[cookies[j]] == n && ckVal[cookies[j]] == jarVal[req.Header][n]))
+//@     invariant copies-still-held: !exists(j, rangeindex + 1, len(cookies), cookies[j] == nil || jcPooled[cookies[j]] || !sameAttrs(cookies[j], srcOf(cookies[j])))
+//@     invariant copies-distinct: !exists(j, 0, len(cookies), exists(m, 0, j, cookies[m] == cookies[j]))
+//@     invariant copies-are-not-the-jars: !exists(j, 0, len(cookies), exists(k, 0, jarLen(cj, rHost(req)), cookies[j] == jarAt(cj, rHost(req), k)))
+//@     invariant sources-are-the-jars: !exists(j, 0, len(cookies), !exists(k, 0, jarLen(cj, rHost(req)), srcOf(cookies[j]) == jarAt(cj, rHost(req), k)))
+//@     invariant sources-live-and-matching: !exists(j, 0, len(cookies), !pathMatch(rPath(req), jcPath[srcOf(cookies[j])]) || !jcLive(jcExp[srcOf(cookies[j])], clockNow))
+//@     invariant every-matching-has-a-copy: !exists(k, 0, jarLen(cj, rHost(req)), pathMatch(rPath(req), jcPath[jarAt(cj, rHost(req), k)]) && !exists(j, 0, len(cookies), srcOf(cookies[j]) == jarAt(cj, rHost(req), k)))
+//@     invariant jar-keeps-its-own-objects: listNoPooled(cj, rHost(req))
+//@     invariant released-so-far: !exists(j, 0, rangeindex + 1, !jcPooled[cookies[j]])
+//@     invariant sent-so-far: !exists(j, 0, rangeindex + 1, !jarHas[req.Header][ckKey[srcOf(cookies[j])]])
+//@     invariant sent-only-from-list: !existsS(n, jarHas[req.Header][n] && !old(jarHas[req.Header][n]) && !exists(j, 0, rangeindex + 1, ckKey[srcOf(cookies[j])] == n && ckVal[srcOf(cookies[j])] == jarVal[req.Header][n]))
 //@     invariant kept-earlier: !existsS(n, old(jarHas[req.Header][n]) && !jarHas[req.Header][n])
 //@     invariant other-headers-untouched: !existsI(h, h != req.Header && (jarHas[h] != old(jarHas[h]) || jarVal[h] != old(jarVal[h])))
 //@   ensures sends-only-live-matching-cookies-of-the-host: !existsS(n, jarHas[req.Header][n] && !old(jarHas[req.Header][n]) && !exists(k, 0, jarLen(cj, rHost(req)), ckKey[jarAt(cj, rHost(req), k)] == n && ckVal[jarAt(cj, rHost(req), k)] == jarVal[req.Header][n] && pathMatch(rPath(req), jcPath[jarAt(cj, rHost(req), k)]) && jcLive(jcExp[jarAt(cj, rHost(req), k)], clockNow)))
 //@   ensures sends-every-live-matching-cookie: !exists(k, 0, jarLen(cj, rHost(req)), pathMatch(rPath(req), jcPath[jarAt(cj, rHost(req), k)]) && !jarHas[req.Header][ckKey[jarAt(cj, rHost(req), k)]])
 //@   ensures other-headers-untouched: !existsI(h, h != req.Header && (jarHas[h] != old(jarHas[h]) || jarVal[h] != old(jarVal[h])))
+//@   ensures jar-keeps-its-own-objects: listNoPooled(cj, rHost(req))
 
 // SetByHost(host, cookies...): files copies of the given cookies under exactly `host` without its port -
 // the key Get / dumpCookiesToReq look under. A cookie whose
 // (key, path) is already stored is overwritten in place, any other one gets a cookie object of its own
 // from the pool - never one that the list already holds. Entries of other hosts are not touched.
-//@ macro sameAttrs(a, b) = ckKey[a] == ckKey[b] && ckVal[a] == ckVal[b] && jcPath[a] == jcPath[b] && jcExp[a] == jcExp[b]
+// The whole update is one critical section: the map is made, read and written under the lock. Relative to the
+// list found under the lock, earlier entries stay where they are and the lists of other hosts are not touched
+// (lock invariants earlier-entries-kept / other-hosts-kept over the snapshot, see "the lock" above).
+// Rely: while the caller waits for the lock nobody releases the caller's cookies or files them in the jar
+// (every section files only objects it acquired from the pool itself: stores-copies / parseCookiesFromResp$1).
+//@ macro sbhHost() = jarHost(str(old(host)))
 //@ func (*CookieJar).SetByHost
 //@   requires lock-free: !held(cj.mu)
-//@   requires list-not-pooled: listNoPooled(cj, jarHost(str(host)))
-//@   requires list-no-duplicates: listNoDup(cj, jarHost(str(host)))
 //@   requires caller-holds-its-cookies: !exists(n, 0, len(cookies), cookies[n] == nil || jcPooled[cookies[n]])
 //@   requires given-cookies-are-not-the-jars: !exists(n, 0, jarLen(cj, jarHost(str(host))), exists(m, 0, len(cookies), jarAt(cj, jarHost(str(host)), n) == cookies[m]))
 //@   requires given-slice-is-not-the-jars: arr(cookies) == nil || !indom(cj.hostCookies, jarHost(str(host))) || arr(cookies) != arr(cj.hostCookies[jarHost(str(host))])
-//@   modifies jcPooled, ckKey, ckVal, ckAttr, jcPath, jcExp, cj.hostCookies, heap(E_p_fasthttp_Cookie), heap(MV_string_LJp_fasthttp_Cookie), heap(MD_string_LJp_fasthttp_Cookie)
-//@   lock cj.mu protects jcPooled inv jar-holds-no-pooled-cookie: listNoPooled(cj, jarHost(str(old(host)))) && !exists(n, 0, len(cookies), cookies[n] == nil || jcPooled[cookies[n]])
+//@   modifies jcPooled, ckKey, ckVal, ckAttr, jcPath, jcExp, ckSrc, jsDom, jsList, jsLen, jsEl, jarLk, CookieJar.hostCookies, heap(E_p_fasthttp_Cookie), heap(MV_string_LJp_fasthttp_Cookie), heap(MD_string_LJp_fasthttp_Cookie)
+//@   lock cj.mu protects jcPooled, H_client_CookieJar_hostCookies, MD_string_LJp_fasthttp_Cookie, MV_string_LJp_fasthttp_Cookie, jsDom, jsList, jsLen, jsEl inv jar-holds-no-pooled-cookie: listNoPooled(cj, sbhHost()) && !exists(n, 0, len(cookies), cookies[n] == nil || jcPooled[cookies[n]])
+//@   lock cj.mu protects jarLk inv no-object-twice: listNoDup(cj, sbhHost())
+//@   lock cj.mu protects jarLk inv given-cookies-are-not-the-jars: !exists(n, 0, jarLen(cj, sbhHost()), exists(m, 0, len(cookies), jarAt(cj, sbhHost(), n) == cookies[m]))
+//@   lock cj.mu protects jarLk inv given-slice-is-not-the-jars: arr(cookies) == nil || !indom(cj.hostCookies, sbhHost()) || arr(cookies) != arr(cj.hostCookies[sbhHost()])
+//@   lock cj.mu protects jarLk inv other-hosts-kept: othersAsSnapshot(cj, sbhHost())
+//@   lock cj.mu protects jarLk inv earlier-entries-kept: extendsSnapshot(cj, sbhHost())
 //@   atcall searchCookieByKeyAndPath: looks-up-this-cookie-under-lock: held(cj.mu) && str(key) == ckKey[cookie] && str(path) == jcPath[cookie]
+//@   atcall @sync.(*Mutex).Unlock: filed-inside-the-section: indom(cj.hostCookies, sbhHost()) && (len(cookies) > 0 ==> exists(n, 0, jarLen(cj, sbhHost()), sameAttrs(jarAt(cj, sbhHost(), n), cookies[len(cookies) - 1])))
 //@   atcall @fasthttp.AcquireCookie: only-for-a-cookie-not-yet-stored: held(cj.mu) && last(searchCookieByKeyAndPath) == nil
 //@   atcall @fasthttp.(*Cookie).CopyTo: copies-the-given-cookie-into-the-jars-own: held(cj.mu) && src == cookie && c != cookie
 //@   loop 1
@@ -166,15 +259,13 @@ package client
 //@     invariant list-distinct: !exists(n, 0, len(hostCookies), exists(m, 0, n, hostCookies[m] == hostCookies[n]))
 //@     invariant list-not-the-callers: !exists(n, 0, len(hostCookies), exists(m, 0, len(cookies), hostCookies[n] == cookies[m]))
 //@     invariant inputs-held: !exists(n, 0, len(cookies), cookies[n] == nil || jcPooled[cookies[n]])
-//@     invariant earlier-entries-kept: len(hostCookies) >= old(jarLen(cj, jarHost(str(host)))) && !exists(k, 0, old(jarLen(cj, jarHost(str(host)))), hostCookies[k] != old(jarAt(cj, jarHost(str(host)), k)))
+//@     invariant earlier-entries-kept: len(hostCookies) >= jsLen && !exists(k, 0, jsLen, hostCookies[k] != jsEl[k])
 //@     invariant current-stored: rangeindex >= 0 ==> exists(n, 0, len(hostCookies), sameAttrs(hostCookies[n], cookies[rangeindex]))
 //@     invariant inputs-unchanged: !exists(n, 0, len(cookies), ckKey[cookies[n]] != old(ckKey[cookies[n]]) || ckVal[cookies[n]] != old(ckVal[cookies[n]]) || jcPath[cookies[n]] != old(jcPath[cookies[n]]) || jcExp[cookies[n]] != old(jcExp[cookies[n]]))
-//@     invariant other-hosts-kept: !existsS(h, h != jarHost(str(host)) && old(cj.hostCookies) != nil && (indom(cj.hostCookies, h) != old(indom(cj.hostCookies, h)) || cj.hostCookies[h] != old(cj.hostCookies[h])))
+//@     invariant other-hosts-kept: othersAsSnapshot(cj, sbhHost())
 //@   ensures last-given-cookie-is-stored: len(cookies) > 0 ==> exists(n, 0, jarLen(cj, jarHost(str(host))), sameAttrs(jarAt(cj, jarHost(str(host)), n), cookies[len(cookies) - 1]))
 //@   ensures stores-copies: !exists(n, 0, jarLen(cj, jarHost(str(host))), exists(m, 0, len(cookies), jarAt(cj, jarHost(str(host)), n) == cookies[m]))
 //@   ensures given-cookies-unchanged: !exists(n, 0, len(cookies), ckKey[cookies[n]] != old(ckKey[cookies[n]]) || ckVal[cookies[n]] != old(ckVal[cookies[n]]) || jcPath[cookies[n]] != old(jcPath[cookies[n]]) || jcExp[cookies[n]] != old(jcExp[cookies[n]]))
-//@   ensures earlier-entries-kept: jarLen(cj, jarHost(str(host))) >= old(jarLen(cj, jarHost(str(host)))) && !exists(k, 0, old(jarLen(cj, jarHost(str(host)))), jarAt(cj, jarHost(str(host)), k) != old(jarAt(cj, jarHost(str(host)), k)))
-//@   ensures other-hosts-untouched: !existsS(h, h != jarHost(str(host)) && old(cj.hostCookies) != nil && (indom(cj.hostCookies, h) != old(indom(cj.hostCookies, h)) || cj.hostCookies[h] != old(cj.hostCookies[h])))
 //@   ensures list-not-pooled: listNoPooled(cj, jarHost(str(host)))
 //@   ensures list-no-duplicates: listNoDup(cj, jarHost(str(host)))
 
@@ -182,23 +273,22 @@ package client
 // dumpCookiesToReq look under, i.e. without the port.
 //@ func (*CookieJar).Set
 //@   requires lock-free: !held(cj.mu)
-//@   requires list-not-pooled: uri != nil ==> listNoPooled(cj, jarHost(uriHost(uri, epoch)))
-//@   requires list-no-duplicates: uri != nil ==> listNoDup(cj, jarHost(uriHost(uri, epoch)))
 //@   requires caller-holds-its-cookies: !exists(n, 0, len(cookies), cookies[n] == nil || jcPooled[cookies[n]])
 //@   requires given-cookies-are-not-the-jars: uri != nil ==> !exists(n, 0, jarLen(cj, jarHost(uriHost(uri, epoch))), exists(m, 0, len(cookies), jarAt(cj, jarHost(uriHost(uri, epoch)), n) == cookies[m]))
 //@   requires given-slice-is-not-the-jars: uri == nil || arr(cookies) == nil || !indom(cj.hostCookies, jarHost(uriHost(uri, epoch))) || arr(cookies) != arr(cj.hostCookies[jarHost(uriHost(uri, epoch))])
-//@   modifies jcPooled, ckKey, ckVal, ckAttr, jcPath, jcExp, cj.hostCookies, heap(E_p_fasthttp_Cookie), heap(MV_string_LJp_fasthttp_Cookie), heap(MD_string_LJp_fasthttp_Cookie)
+//@   modifies jcPooled, ckKey, ckVal, ckAttr, jcPath, jcExp, ckSrc, jsDom, jsList, jsLen, jsEl, jarLk, CookieJar.hostCookies, heap(E_p_fasthttp_Cookie), heap(MV_string_LJp_fasthttp_Cookie), heap(MD_string_LJp_fasthttp_Cookie)
 //@   atcall (*CookieJar).SetByHost: files-under-the-host-of-the-url: str(host) == uriHost(uri, epoch)
 //@   ensures last-given-cookie-is-stored: uri != nil && len(cookies) > 0 ==> exists(n, 0, jarLen(cj, jarHost(uriHost(uri, epoch))), sameAttrs(jarAt(cj, jarHost(uriHost(uri, epoch)), n), cookies[len(cookies) - 1]))
 //@   ensures no-uri-no-effect: uri == nil ==> cj.hostCookies == old(cj.hostCookies)
 
 // SetKeyValue / SetKeyValueBytes(host, key, value): a session cookie key=value for every path of `host` (filed without the port).
+// (list-not-pooled at entry: the cookie acquired here comes from the pool, so it is none of the jar's - the
+// precondition given-cookies-are-not-the-jars of SetByHost.)
 //@ func (*CookieJar).SetKeyValue
 //@   requires lock-free: !held(cj.mu)
 //@   requires list-exists: !indom(cj.hostCookies, jarHost(host)) || arr(cj.hostCookies[jarHost(host)]) == nil || allocated(arr(cj.hostCookies[jarHost(host)]))
 //@   requires list-not-pooled: listNoPooled(cj, jarHost(host))
-//@   requires list-no-duplicates: listNoDup(cj, jarHost(host))
-//@   modifies jcPooled, ckKey, ckVal, ckAttr, jcPath, jcExp, cj.hostCookies, heap(E_p_fasthttp_Cookie), heap(MV_string_LJp_fasthttp_Cookie), heap(MD_string_LJp_fasthttp_Cookie)
+//@   modifies jcPooled, ckKey, ckVal, ckAttr, jcPath, jcExp, ckSrc, jsDom, jsList, jsLen, jsEl, jarLk, CookieJar.hostCookies, heap(E_p_fasthttp_Cookie), heap(MV_string_LJp_fasthttp_Cookie), heap(MD_string_LJp_fasthttp_Cookie)
 //@   ensures stored: exists(n, 0, jarLen(cj, jarHost(host)), ckKey[jarAt(cj, jarHost(host), n)] == key && ckVal[jarAt(cj, jarHost(host), n)] == value && jcPath[jarAt(cj, jarHost(host), n)] == "" && tUnlimited(jcExp[jarAt(cj, jarHost(host), n)]))
 //@   ensures list-not-pooled: listNoPooled(cj, jarHost(host))
 //@   ensures list-no-duplicates: listNoDup(cj, jarHost(host))
@@ -206,8 +296,7 @@ package client
 //@   requires lock-free: !held(cj.mu)
 //@   requires list-exists: !indom(cj.hostCookies, jarHost(host)) || arr(cj.hostCookies[jarHost(host)]) == nil || allocated(arr(cj.hostCookies[jarHost(host)]))
 //@   requires list-not-pooled: listNoPooled(cj, jarHost(host))
-//@   requires list-no-duplicates: listNoDup(cj, jarHost(host))
-//@   modifies jcPooled, ckKey, ckVal, ckAttr, jcPath, jcExp, cj.hostCookies, heap(E_p_fasthttp_Cookie), heap(MV_string_LJp_fasthttp_Cookie), heap(MD_string_LJp_fasthttp_Cookie)
+//@   modifies jcPooled, ckKey, ckVal, ckAttr, jcPath, jcExp, ckSrc, jsDom, jsList, jsLen, jsEl, jarLk, CookieJar.hostCookies, heap(E_p_fasthttp_Cookie), heap(MV_string_LJp_fasthttp_Cookie), heap(MD_string_LJp_fasthttp_Cookie)
 //@   ensures stored: exists(n, 0, jarLen(cj, jarHost(host)), ckKey[jarAt(cj, jarHost(host), n)] == old(str(key)) && ckVal[jarAt(cj, jarHost(host), n)] == old(str(value)) && jcPath[jarAt(cj, jarHost(host), n)] == "" && tUnlimited(jcExp[jarAt(cj, jarHost(host), n)]))
 //@   ensures list-not-pooled: listNoPooled(cj, jarHost(host))
 //@   ensures list-no-duplicates: listNoDup(cj, jarHost(host))
@@ -235,6 +324,8 @@ package client
 //@ func (*CookieJar).parseCookiesFromResp$1
 //@   preserves list-not-pooled: !exists(n, 0, len(cookies), cookies[n] == nil || jcPooled[cookies[n]])
 //@   preserves no-object-twice-in-list: !exists(n, 0, len(cookies), exists(m, 0, n, cookies[m] == cookies[n]))
+// (relative to the list found under the lock - snapshot jsLen/jsEl, see "the lock" -: entries are only appended)
+//@   preserves earlier-entries-stay: len(cookies) >= jsLen && !exists(k, 0, jsLen, cookies[k] != jsEl[k])
 // (requires/ensures rather than preserves: the engine asserts `preserves` after havocking the ghosts that the
 // assumed VisitAllCookie contract of mw_C20.spec lists as modified, ckKey among them)
 //@   requires one-entry-per-key-and-path: forall(n, 0, len(cookies), forall(m, 0, n, ckKey[cookies[m]] != ckKey[cookies[n]] || jcPath[cookies[m]] != jcPath[cookies[n]]))
@@ -252,14 +343,19 @@ package client
 //@   ensures stored-cookies-not-released: !existsI(x, x != c && jcPooled[x] != old(jcPooled[x])) && (!created || kept() ==> !jcPooled[c])
 //@   ensures one-entry-per-key-and-path: forall(n, 0, len(cookies), forall(m, 0, n, ckKey[cookies[m]] != ckKey[cookies[n]] || jcPath[cookies[m]] != jcPath[cookies[n]]))
 
-// The enclosing function: everything happens under the jar's lock, the working list is the host's list and
-// is filed back under the host that Get / dumpCookiesToReq look under (without the port).
+// The enclosing function: everything happens under the jar's lock - the map is made, read and written inside
+// the critical section -, the working list is the host's list and is filed back under the host that
+// Get / dumpCookiesToReq look under (without the port). Relative to the list found under the lock, entries are
+// only appended, and the lists of other hosts are not touched.
+//@ macro pcHost() = jarHost(old(str(host)))
 //@ func (*CookieJar).parseCookiesFromResp
 //@   requires lock-free: !held(cj.mu)
-//@   requires list-not-pooled: listNoPooled(cj, jarHost(str(host)))
-//@   requires list-no-duplicates: listNoDup(cj, jarHost(str(host)))
-//@   lock cj.mu protects jcPooled inv jar-holds-no-pooled-cookie: listNoPooled(cj, jarHost(old(str(host))))
+//@   lock cj.mu protects jcPooled, H_client_CookieJar_hostCookies, MD_string_LJp_fasthttp_Cookie, MV_string_LJp_fasthttp_Cookie, jsDom, jsList, jsLen, jsEl inv jar-holds-no-pooled-cookie: listNoPooled(cj, pcHost())
+//@   lock cj.mu protects jarLk inv no-object-twice: listNoDup(cj, pcHost())
+//@   lock cj.mu protects jarLk inv other-hosts-kept: othersAsSnapshot(cj, pcHost())
+//@   lock cj.mu protects jarLk inv earlier-entries-kept: extendsSnapshot(cj, pcHost())
 //@   atcall @fasthttp.(*ResponseHeader).VisitAllCookie: under-lock: held(cj.mu)
+//@   atcall @sync.(*Mutex).Unlock: filed-inside-the-section: indom(cj.hostCookies, pcHost())
 //@   ensures filed-where-get-looks: cj.hostCookies != nil ==> indom(cj.hostCookies, jarHost(old(str(host))))
 
 // ---------------------------------------------------------------------------------------------
@@ -273,12 +369,22 @@ package client
 
 // c.header / req.header  ->  every configured header line is ADDED to the raw request of this request
 // (AddBytesKV never replaces or removes a line, so request-level headers are sent in addition).
+// (rhLine, mw_C18.spec: the header lines an object holds; the frame of the two closures is that ghost alone.)
+//@ macro lineIn(h_, k_, v_) = rhLine[h_][hnorm(k_)][v_]
+//@ macro noLineDropped() = forallI(a_, forallS(k_, forallS(v_, old(rhLine[a_][k_][v_]) ==> rhLine[a_][k_][v_])))
+//@ macro onlyLineAdded(h_, k_, v_) = forallI(a_, forallS(n_, forallS(w_, rhLine[a_][n_][w_] && !old(rhLine[a_][n_][w_]) ==> a_ == h_ && n_ == hnorm(k_) && w_ == v_)))
 //@ func parserRequestHeader$1
-//@   pure
+//@   modifies rhLine
 //@   atcall @fasthttp.(*RequestHeader).AddBytesKV: client-header-line-sent: h == req.RawRequest.Header && str(arg1) == str(key) && str(arg2) == str(value)
+//@   ensures client-header-line-added: lineIn(req.RawRequest.Header, old(str(key)), old(str(value)))
+//@   ensures no-line-dropped: noLineDropped()
+//@   ensures nothing-else-added: onlyLineAdded(req.RawRequest.Header, old(str(key)), old(str(value)))
 //@ func parserRequestHeader$2
-//@   pure
+//@   modifies rhLine
 //@   atcall @fasthttp.(*RequestHeader).AddBytesKV: request-header-line-sent-in-addition: h == req.RawRequest.Header && str(arg1) == str(key) && str(arg2) == str(value)
+//@   ensures request-header-line-added-in-addition: lineIn(req.RawRequest.Header, old(str(key)), old(str(value)))
+//@   ensures no-line-dropped: noLineDropped()
+//@   ensures nothing-else-added: onlyLineAdded(req.RawRequest.Header, old(str(key)), old(str(value)))
 // c.cookies / req.cookies  ->  the cookie is set (replacing an earlier value of that name only).
 //@ func parserRequestHeader$3
 //@   ensures client-cookie-sent: jarHas[req.RawRequest.Header][key] && jarVal[req.RawRequest.Header][key] == val
@@ -291,19 +397,62 @@ package client
 //@ func (*Request).Method
 //@   pure
 //@   ensures result == r.method
-// (random multipart boundary suffix: irrelevant for C18, not verified)
-//@ func unsafeRandString assumed pure
+// unsafeRandString(n): the random suffix of the default multipart boundary - CHECKED: n bytes, every one a letter
+// or a digit (so the boundary stays a legal RFC 2046 boundary and no byte needs escaping), no index out of
+// range (the 6-bit index is only used when it is below the 62 letters). Which letters: random (math/rand,
+// not modelled); termination is probabilistic and not claimed.
+//@ macro isLetterByte(b_) = exists(j_, 0, 62, letterBytes[j_] == b_)
+//@ func unsafeRandString
+//@   pure
+//@   requires length-not-negative: n >= 0
+//@   loop 1
+//@     invariant filled-from-the-back: -1 <= i && i <= n - 1 && len(b) == n
+//@     invariant tail-are-letters: forall(k, i + 1, n, isLetterByte(b[k]))
+//@     invariant tail-are-letters-as-string: forall(k, i + 1, n, str(b)[k] == b[k] && isLetterByte(str(b)[k]))
+//@   ensures n-bytes: len(result) == n
+//@   ensures letters-and-digits-only: forall(k, 0, n, isLetterByte(result[k]))
 
-// Cookie maps and path-parameter maps: VisitAll calls f(k, v) once for every entry (3-line range loops).
-//@ func (Cookie).VisitAll assumed
+// Cookie maps and path-parameter maps: VisitAll calls f(k, v) once for every entry (3-line range loops) -
+// CHECKED against the bodies. The calls of the parameter f are logged in ghost state (the leaf idiom: the
+// contract of `param f` records the call): visitN[k] = how often f was called with name k, visitV[k] = the
+// value of the most recent such call. VisitAll hands every entry of the map to f exactly once, with the
+// entry's value, and calls f for nothing else.
+// ASSUMED about the callback (contract of `param f`): besides the log it writes no heap - in particular it
+// does not add to or delete from the map being visited. (The four closures handed to VisitAll in this package
+// have checked frames of their own: ghost state only, see parserRequestHeader$3/$4, parserRequestURL$1/$2; what a
+// closure does is accounted for at the call site: callsback.)
+//@ ghost visitN map[string]int
+//@ ghost visitV map[string]string
+//@ func param f assumed
+//@   modifies visitN, visitV
+//@   ensures visitN == old(visitN)[arg0 := old(visitN)[arg0] + 1] && visitV == old(visitV)[arg0 := arg1]
+//@ macro visitedOnce(m_) = forallS(k_, old(indom(m_, k_)) ==> visitN[k_] == old(visitN[k_]) + 1 && visitV[k_] == old(m_[k_]))
+//@ macro nothingElseVisited(m_) = forallS(k_, !old(indom(m_, k_)) ==> visitN[k_] == old(visitN[k_]) && visitV[k_] == old(visitV[k_]))
+//@ func (Cookie).VisitAll
 //@   callsback
-//@ func (PathParam).VisitAll assumed
+//@   modifies visitN, visitV
+//@   atcall param f: an-entry-of-the-map: indom(c, arg0) && c[arg0] == arg1
+//@   atcall param f: not-handed-over-before: visitN[arg0] == old(visitN[arg0])
+//@   loop 1
+//@     invariant visited-handed-over-once: forallS(k, seen(k) ==> indom(c, k) && visitN[k] == old(visitN[k]) + 1 && visitV[k] == c[k])
+//@     invariant others-not-yet: forallS(k, !seen(k) ==> visitN[k] == old(visitN[k]) && visitV[k] == old(visitV[k]))
+//@   ensures every-entry-handed-over-exactly-once: visitedOnce(c)
+//@   ensures nothing-else-handed-over: nothingElseVisited(c)
+//@ func (PathParam).VisitAll
 //@   callsback
+//@   modifies visitN, visitV
+//@   atcall param f: an-entry-of-the-map: indom(p, arg0) && p[arg0] == arg1
+//@   atcall param f: not-handed-over-before: visitN[arg0] == old(visitN[arg0])
+//@   loop 1
+//@     invariant visited-handed-over-once: forallS(k, seen(k) ==> indom(p, k) && visitN[k] == old(visitN[k]) + 1 && visitV[k] == p[k])
+//@     invariant others-not-yet: forallS(k, !seen(k) ==> visitN[k] == old(visitN[k]) && visitV[k] == old(visitV[k]))
+//@   ensures every-entry-handed-over-exactly-once: visitedOnce(p)
+//@   ensures nothing-else-handed-over: nothingElseVisited(p)
 
 // parserRequestHeader: user agent  request > client > default;  referer  request > client;
 // cookies  jar < client < request (later writes replace earlier ones of the same name); headers of both levels.
 //@ func parserRequestHeader
-//@   requires jar-usable: c.cookieJar != nil ==> !held(c.cookieJar.mu) && listNoPooled(c.cookieJar, rHost(req.RawRequest)) && listNoDup(c.cookieJar, rHost(req.RawRequest))
+//@   requires jar-usable: c.cookieJar != nil ==> !held(c.cookieJar.mu)
 //@   atcall @fasthttp.(*RequestHeader).VisitAll: client-headers-then-request-headers: (!called("@fasthttp.(*RequestHeader).VisitAll") && arg0 == c.header.RequestHeader) || (called("@fasthttp.(*RequestHeader).VisitAll") && arg0 == req.header.RequestHeader)
 //@   atcall @fasthttp.(*RequestHeader).SetUserAgent: default-then-client-then-request: h == req.RawRequest.Header && ((!called("@fasthttp.(*RequestHeader).SetUserAgent") && userAgent == defaultUserAgent) || (rhUA[h] == defaultUserAgent && userAgent == c.userAgent && userAgent != "") || (userAgent == req.userAgent && userAgent != ""))
 //@   atcall @fasthttp.(*RequestHeader).SetReferer: user-agent-settled: rhUA[req.RawRequest.Header] == ite(req.userAgent != "", req.userAgent, ite(c.userAgent != "", c.userAgent, defaultUserAgent))
@@ -312,6 +461,15 @@ package client
 //@   atcall (Cookie).VisitAll: request-referer-wins: !called("(Cookie).VisitAll") && req.referer != "" ==> rhReferer[req.RawRequest.Header] == req.referer
 //@   atcall (Cookie).VisitAll: request-cookies-last: called("(Cookie).VisitAll") ==> arg0 == *req.cookies
 //@   ensures no-error: result == nil
+// The same precedence over the configuration STATE that the setters of zz_contracts_setters_verif.go write
+// (r.userAgent, c.userAgent, r.referer, c.referer, r.method, r.bodyType, r.boundary): what the raw request
+// holds when the hook returns.
+//@   ensures user-agent-request-over-client-over-default: rhUA[req.RawRequest.Header] == ite(req.userAgent != "", req.userAgent, ite(c.userAgent != "", c.userAgent, defaultUserAgent))
+//@   ensures referer-request-over-client: rhReferer[req.RawRequest.Header] == ite(req.referer != "", req.referer, c.referer)
+//@   ensures method-is-the-requests: rhMethod[req.RawRequest.Header] == req.method
+//@   ensures content-type-by-body-kind: (req.bodyType == jsonBody ==> rhCType[req.RawRequest.Header] == applicationJSON) && (req.bodyType == xmlBody ==> rhCType[req.RawRequest.Header] == applicationXML) && (req.bodyType == cborBody ==> rhCType[req.RawRequest.Header] == applicationCBOR) && (req.bodyType == formBody ==> rhCType[req.RawRequest.Header] == applicationForm) && (req.bodyType == filesBody ==> rhCType[req.RawRequest.Header] == multipartFormData) && (req.bodyType == noBody || req.bodyType == rawBody ==> rhCType[req.RawRequest.Header] == old(rhCType[req.RawRequest.Header]))
+//@   ensures multipart-boundary-is-the-requests: req.bodyType == filesBody ==> rhBoundary[req.RawRequest.Header] == req.boundary && (old(req.boundary) != boundary ==> req.boundary == old(req.boundary))
+//@   ensures configuration-not-changed: req.userAgent == old(req.userAgent) && req.referer == old(req.referer) && req.method == old(req.method) && req.bodyType == old(req.bodyType) && req.RawRequest == old(req.RawRequest) && c.userAgent == old(c.userAgent) && c.referer == old(c.referer) && (req.bodyType != filesBody ==> req.boundary == old(req.boundary))
 
 // parserRequestURL: path parameters - the request's are substituted BEFORE the client's (so for a name
 // configured on both levels the request's value is the one that lands in the URL); query parameters -
@@ -331,6 +489,13 @@ package client
 //@   atcall @fasthttp.(*Args).VisitAll: client-query-then-request-query: called("(PathParam).VisitAll") && ((!called("@fasthttp.(*Args).VisitAll") && arg0 == c.params.Args) || (called("@fasthttp.(*Args).VisitAll") && arg0 == req.params.Args))
 
 // parserRequestBody: the body that is sent is the one configured, by kind.
+// c.jsonMarshal / xmlMarshal / cborMarshal are function-valued fields: NewWithClient installs json.Marshal,
+// xml.Marshal, cbor.Marshal (checked: NewWithClient/post:default-marshal-functions), SetJSONMarshal & co. replace
+// them (checked setters). A field contract cannot be checked against a body - the value is whatever was stored -,
+// so the three contracts below stay ASSUMED, but they say nothing about WHAT the function computes: they log the
+// call (which field was called, what it returned) in ghost state and assume only that the function writes no
+// request or client state. That the function is called with the configured body value, and that it is the function
+// stored in the field of THIS client, are checked at the call (atcall marshals-the-configured-body).
 //@ ghost bodyMarshalled string
 //@ ghost bodyMarshalledBy int
 //@ func Client.jsonMarshal assumed
@@ -342,9 +507,29 @@ package client
 //@ func Client.cborMarshal assumed
 //@   modifies bodyMarshalled, bodyMarshalledBy
 //@   ensures bodyMarshalledBy == 3 && (result1 == nil ==> bodyMarshalled == str(result0))
-//@ func parserRequestBodyFile assumed
-//@   modifies heap
+// parserRequestBodyFile (multipart body: form fields, then the files) - CHECKED against its body, no longer assumed.
+// mime/multipart, os and io have no contracts: every call of them havocs the heap, so what can be stated is what
+// each of those calls is GIVEN, at the call: the writer writes into the body of this request's raw request, gets
+// the request's boundary, every form field is written under its own name with its own value, every file part is
+// created under the file's field name (never empty: "file<i>" by default) and file name, and the content copied
+// into the part is read from that file's reader. Run-time safety of the loop is checked as well.
+// NOT DECIDED: that every configured file gets a part (the loop's progress over req.files cannot be carried across
+// the havoc of the uncontracted calls), the bytes on the wire (multipart encoder), error paths of the encoder.
+// Frame: none stated - callers see a heap havoc (as before).
+//@ func parserRequestBodyFile$2
+//@   atcall @multipart.(*Writer).WriteField: field-written-under-its-name-with-its-value: arg1 == old(str(key)) && arg2 == old(str(value)) && arg0 == mw
+//@ func parserRequestBodyFile
+//@   atcall @multipart.NewWriter: writes-into-this-requests-body: arg0 == last(@fasthttp.(*Request).BodyWriter)
+//@   atcall @fasthttp.(*Request).BodyWriter: of-this-raw-request: arg0 == old(req.RawRequest)
+//@   atcall @multipart.(*Writer).SetBoundary: the-requests-boundary: arg1 == old(req.boundary) && arg0 == last(@multipart.NewWriter)
+//@   atcall @multipart.(*Writer).CreateFormFile: part-named-as-the-file-says: arg0 == mw && arg1 == v.fieldName && arg2 == v.name && arg1 != ""
+//@   atcall @os.Open: only-for-a-file-without-reader: v.reader == nil && arg0 == v.path
+//@   atcall @io.CopyBuffer: content-of-this-file: arg1 == v.reader && v.reader != nil
 //@ func parserRequestBody
+//@   atcall Client.jsonMarshal: marshals-the-configured-body: arg0 == req.body && fnvalue == c.jsonMarshal
+//@   atcall Client.xmlMarshal: marshals-the-configured-body: arg0 == req.body && fnvalue == c.xmlMarshal
+//@   atcall Client.cborMarshal: marshals-the-configured-body: arg0 == req.body && fnvalue == c.cborMarshal
+//@   atcall @fasthttp.(*Request).SetBody: into-the-raw-request-of-this-request: arg0 == old(req.RawRequest)
 //@   ensures json-body-is-marshalled-value: old(req.bodyType) == jsonBody && result == nil ==> bodyMarshalledBy == 1 && reqBody[old(req.RawRequest)] == bodyMarshalled
 //@   ensures xml-body-is-marshalled-value: old(req.bodyType) == xmlBody && result == nil ==> bodyMarshalledBy == 2 && reqBody[old(req.RawRequest)] == bodyMarshalled
 //@   ensures cbor-body-is-marshalled-value: old(req.bodyType) == cborBody && result == nil ==> bodyMarshalledBy == 3 && reqBody[old(req.RawRequest)] == bodyMarshalled
@@ -356,7 +541,14 @@ package client
 //@   atcall @context.WithTimeout: request-timeout-wins: timeout == ite(c.req.timeout > 0, c.req.timeout, c.client.timeout) && timeout > 0
 //@   ensures no-timeout-configured-no-deadline: old(c.req.timeout) <= 0 && old(c.client.timeout) <= 0 ==> result == nil && c.ctx == old(c.ctx)
 
-// parserResponseCookie (hooks.go) is NOT under contract: its first statement is a VisitAllCookie callback that
-// appends to resp.cookie; the callback havoc leaves no state in which the preconditions of
-// parseCookiesFromResp (lock free, list well-formed) could be established. Undecided: that it files the
-// cookies under the host and path of this very request.
+// parserResponseCookie (hooks.go): the Set-Cookie headers of the response go to the jar under the host and the
+// path of THIS request's URL - the host Get / dumpCookiesToReq will look under for the next request to it.
+// (parseCookiesFromResp needs nothing but the free lock since the list invariants are lock invariants.)
+// The first statement is a VisitAllCookie callback that appends to resp.cookie: its effects are outside its
+// captured variables, the engine havocs everything at that call - the configuration is therefore read at the
+// call of parseCookiesFromResp (epochNow). NOT DECIDED: resp.cookie (the parsed copies kept on the Response).
+//@ func parserResponseCookie$1
+//@   modifies jcPooled, ckKey, ckVal, ckAttr, jcPath, jcExp, Response.cookie, heap(E_p_fasthttp_Cookie), heap(C_error)
+//@ func parserResponseCookie
+//@   requires jar-lock-free: c.cookieJar != nil ==> !held(c.cookieJar.mu)
+//@   atcall (*CookieJar).parseCookiesFromResp: files-under-host-and-path-of-this-requests-url: cj == c.cookieJar && str(host) == uriHost(reqURI(req.RawRequest, epochNow), epochNow) && str(path) == uriPath(reqURI(req.RawRequest, epochNow), epochNow) && arg3 == old(resp).RawResponse
